@@ -132,6 +132,31 @@ def gen_rounds():
     return "\n".join(out)
 
 
+def gen_benign():
+    mp = os.path.join(VERIF, "benign", "MATRIX.json")
+    if not os.path.exists(mp):
+        return "(no behaviour-preserving refactorings recorded)"
+    matrix = json.load(open(mp))
+    out = ["| refactoring | property | kind (author's words) | functions | today's 20 checks |", "|---|---|---|---|---|"]
+    n = fa = nv = 0
+    for bid in sorted(matrix, key=lambda k: (re.search(r"C\d\d", k).group(0), k)):
+        v = matrix[bid]
+        meta = json.load(open(os.path.join(VERIF, "benign", bid, "meta.json")))
+        n += 1
+        if v["violations"]:
+            fa += 1
+            verdict = "**false alarm**: " + ", ".join(sorted(v["violations"]))
+        elif v["analysis_errors"]:
+            nv += 1
+            verdict = "no verdict (analysis error): " + ", ".join(sorted(v["analysis_errors"]))
+        else:
+            verdict = "silent"
+        out.append("| %s | %s | %s | %s | %s |" % (bid, meta.get("property"), esc(str(meta.get("kind", ""))[:70]), esc(", ".join(meta.get("functions", []))[:90]), verdict))
+    out.append("")
+    out.append("%d refactorings: %d silent, %d without verdict (exit 2), %d false alarms (exit 1)." % (n, n - fa - nv, nv, fa))
+    return "\n".join(out)
+
+
 def gen_findings():
     data = json.load(open(os.path.join(VERIF, "known_findings.json")))
     out = ["| property.rule | construct | status | what failed |", "|---|---|---|---|"]
@@ -143,7 +168,7 @@ def gen_findings():
 def main():
     path = os.path.join(VERIF, "DESIGN.md")
     text = open(path).read()
-    for name, fn in (("rules", gen_rules), ("witnesses", gen_witnesses), ("seeds", gen_seeds), ("rounds", gen_rounds), ("findings", gen_findings)):
+    for name, fn in (("rules", gen_rules), ("witnesses", gen_witnesses), ("seeds", gen_seeds), ("rounds", gen_rounds), ("benign", gen_benign), ("findings", gen_findings)):
         b, e = "<!-- BEGIN GENERATED:%s -->" % name, "<!-- END GENERATED:%s -->" % name
         if b not in text:
             print("marker for %s not present, skipped" % name)
